@@ -171,7 +171,26 @@ def check_c12(tier):
         add_violations(rep, res2, "C12")
         n2, g2 = eval_consistency(rep, res2); n += n2; g += g2
         results.append(res2)
+    # every catalogue solution x every provided evaluator x both scalar types: two handles holding the same solution with different parameters --
+    # the evaluator must follow the selection (part (e) of src/e2_order2.cpp, shared with C10)
+    import p_e3, gen_api
+    caps = p_e3.build_caps(b, os.path.join(b.dir, "gen"))
+    o2 = os.path.join(b.dir, "e2_order2")
+    b.compile_harness([os.path.join(VERIF, "src", "e2_order2.cpp")], o2, flags=["-O1", "-w"], incs=[os.path.join(b.dir, "gen")])
+    o2out = os.path.join(b.dir, "order2sel.out")
+    r = subprocess.run([o2, caps, o2out, tier], stdout=subprocess.PIPE, stderr=subprocess.STDOUT, text=True, env=dict(os.environ, O2_SELECTION_ONLY="1"))
+    if r.returncode != 0:
+        sys.stderr.write("e2_order2 (selection part) failed rc=%d:\n%s" % (r.returncode, r.stdout[-2000:])); raise SystemExit(2)
+    nsel = 0
+    for line in open(o2out, errors="replace"):
+        f = line.rstrip("\n").split("\t")
+        if f[0] == "C":
+            nsel += int(f[4]) * 2
+        elif f[0] == "V":
+            rep.violation("two handles, one solution: %s<%s> evaluator %s: %s" % (f[1], f[2], f[3], f[4]), {"engine": "e2_order2", "part": "selection", "solution": f[1], "scalar": f[2], "evaluator": f[3], "message": f[4], "history": [f[4]]})
     cover(rep, results)
+    rep.coverage["two_handle_evaluator_checks"] = nsel
+    rep.coverage["states"] += nsel; rep.coverage["transitions"] += nsel; rep.coverage["traces_validated_against_impl"] += nsel
     rep.coverage["eval_observations"] = n; rep.coverage["distinct_assignments_evaluated"] = g
     rep.assumptions += ["alphabet: handles {a,b} x solutions {euler_1d, heateq_2d_steady_const} x one parameter per solution with values {default, 7.5} x both registries (quick: reduced alphabet on the long double registry); space c12s: ALL operation sequences of an 11-operation (thorough: 13) registry alphabet up to depth 5 (thorough: 6) without state merging -- hidden library state cannot hide behind an equal observation; space c12r: handles {a,b} holding the radiation solution, every vector replaceable, re-initialisation with the same and another solution, init_param",
                         "reference model: map handle -> (solution, parameter map) + selection, per registry; defaults captured from a fresh process"]
